@@ -15,6 +15,7 @@ Oracles (independent of the code under test):
     sequential execution, the scheduler must see no deadlock / virtual timeout / dead or leftover thread.
 """
 import collections
+import contextlib
 import itertools
 import os
 import shutil
@@ -212,6 +213,47 @@ class AtFuncPolicy:
         return me if me in r else min(r, key=lambda t: t.tid)
 
 
+CRITICAL_FUNCS = ("_plugins_to_cache", "__get_requested_plugins_from_cache", "_plugins_are_cached", "__get_plugin",
+                  "_get_plugins", "register", "_context_hash", "get_iter", "key_for")
+
+
+class FocusPolicy:
+    """Preempt only at lines inside the critical functions (the unsynchronised windows are there; everything else
+    executes atomically).  mode 'random': at such a line switch with probability p to a random other thread;
+    mode 'quanta': the running thread is switched away from after it executed q_i critical lines (q from a
+    generated list, then repeating the last), the next thread is chosen round-robin by tid."""
+
+    def __init__(self, p):
+        import random
+
+        self.rng = random.Random(p.get("seed", 0))
+        self.mode = p["mode"]
+        self.p = p.get("p", 0.2)
+        self.quanta = list(p.get("quanta", [10]))
+        self.funcs = set(p.get("funcs") or CRITICAL_FUNCS)
+        self.used = 0
+        self.qi = 0
+
+    def choose(self, s, r, me, why):
+        if me not in r:
+            return min(r, key=lambda t: t.tid)
+        if why != "line" or s.where not in self.funcs:
+            return me
+        others = sorted((t for t in r if t is not me), key=lambda t: t.tid)
+        if self.mode == "random":
+            if self.rng.random() < self.p:
+                return self.rng.choice(others)
+            return me
+        self.used += 1
+        q = self.quanta[min(self.qi, len(self.quanta) - 1)]
+        if self.used >= q:
+            self.used = 0
+            self.qi += 1
+            after = [t for t in others if t.tid > me.tid]
+            return after[0] if after else others[0]
+        return me
+
+
 class Recording:
     """Wraps a policy; counts real preemptions by the function (line steps) or operation they happened in."""
 
@@ -240,19 +282,27 @@ class LineScheduler(Scheduler):
 def make_policy(p):
     if p["kind"] == "at_func":
         return AtFuncPolicy(p["points"])
+    if p["kind"] == "focus":
+        return FocusPolicy(p)
     return policies.make_policy(p)
 
 
-def st_schedule():
+def st_schedule(racy=False):
     rnd = st.builds(lambda s, p: dict(kind="random", seed=s, p_stay=p), st.integers(0, 2 ** 20),
-                    st.sampled_from([0.5, 0.9, 0.98, 0.995]))
+                    st.sampled_from([0.9, 0.98, 0.995] if racy else [0.5, 0.9, 0.98, 0.995]))
+    foc = st.builds(lambda s, p: dict(kind="focus", mode="random", seed=s, p=p), st.integers(0, 2 ** 20),
+                    st.sampled_from([0.1, 0.15, 0.25, 0.4]))
+    qua = st.builds(lambda q: dict(kind="focus", mode="quanta", quanta=q),
+                    st.lists(st.integers(1, 40), min_size=1, max_size=6))
     pct = st.builds(lambda s, d, k: dict(kind="pct", seed=s, depth=d, k=k), st.integers(0, 2 ** 20),
                     st.integers(1, 4), st.sampled_from([50, 400, 2000, 8000]))
     cho = st.builds(lambda c: dict(kind="choices", choices=c), st.lists(st.integers(0, 3), max_size=40))
     point = st.builds(lambda f, n, to: dict(func=f, nth=n, to=to), st.sampled_from(TARGETED_FUNCS),
                       st.integers(1, 30), st.integers(0, 3))
     at = st.builds(lambda pts: dict(kind="at_func", points=pts), st.lists(point, min_size=1, max_size=3))
-    return st.one_of(rnd, pct, pct, cho, at, at)
+    if racy:
+        return st.one_of(rnd, rnd, foc, foc, pct, at, qua)
+    return st.one_of(rnd, pct, pct, cho, at, at, foc, qua)
 
 
 # ----------------------------------------------------------------------------------------------------
@@ -262,7 +312,11 @@ RUN_ID_POOL = ["0", "1", "2", "10", "11", "007", "100", "a", "b7", "run_x", "Z",
 
 
 @st.composite
-def st_case(draw, multi):
+def st_case(draw, multi, racy=False):
+    """racy=True: the shapes in which workers resolve plugins on ONE shared context with a cache that still has to
+    be filled (targets with dependencies, >=2 workers, >=3 runs, no per-call option) under fine-grained schedules."""
+    if racy:
+        return draw(st_racy_case())
     n = draw(st.integers(2, 8))
     runs = draw(st.permutations(RUN_ID_POOL))[:n]
     salts = draw(st.permutations(list(range(1, 40))))[:n]
@@ -315,6 +369,30 @@ def st_case(draw, multi):
         warm=warm, warm_run=draw(st.sampled_from(ok_runs)),
         opt_kw=draw(st.integers(0, 4)) == 0, mul0=draw(st.sampled_from([3, 4])), mul=draw(st.sampled_from([2, 5])),
         policy=draw(st_schedule()),
+    )
+
+
+@st.composite
+def st_racy_case(draw):
+    n = draw(st.integers(3, 5))
+    runs = draw(st.permutations(RUN_ID_POOL))[:n]
+    salts = draw(st.permutations(list(range(1, 40))))[:n]
+    chunks = [draw(st.lists(st.integers(0, 2), min_size=1, max_size=2)) for _ in range(n)]
+    if draw(st.integers(0, 2)) == 0:
+        targets = draw(st.permutations(list(KIND_THINGS)))[:2]
+    else:
+        targets = [draw(st.sampled_from(["pa", "pb", "pc", "pc", "ev"]))]
+    fail = {}
+    if draw(st.integers(0, 3)) == 0:
+        fail[runs[draw(st.integers(0, n - 1))]] = draw(st.sampled_from(
+            ["src:0", "setup:src", "setup:" + targets[0]] + [t for t in targets if t != "src"]))
+    ok_runs = [r for r in runs if r not in fail]
+    return dict(
+        runs=runs, salts=salts, chunks=chunks, workers=draw(st.sampled_from([2, 2, 3, 3, 4])), targets=list(targets),
+        as_str=False, api=draw(st.sampled_from(["get_array", "get_array", "get_df", "make"])), storage=False,
+        forbid=False, prestore={}, fail=fail, ignore_errors=draw(st.booleans()), add_run_id_field=None,
+        run_id_as_bytes=draw(st.booleans()), warm=draw(st.sampled_from(["cold", "cold", "cold", "keys"])),
+        warm_run=draw(st.sampled_from(ok_runs)), opt_kw=False, mul0=3, mul=2, policy=draw(st_schedule(racy=True)),
     )
 
 
@@ -541,6 +619,36 @@ def spy_on_workers(ctx):
     return seen
 
 
+@contextlib.contextmanager
+def controlled_locks(ctx):
+    """A (future) repair of strax may guard the context's shared state with threading locks.  A real lock held by
+    a thread that the scheduler has preempted would block the whole process, so for the duration of a controlled
+    run every lock found at module level of strax.context / strax.utils or on the context instance is replaced by
+    the scheduler's cooperative lock, and `threading` as seen by those modules is the scheduler's shim."""
+    import threading
+
+    import strax.context as sc
+    import strax.utils as su
+    from vf.sched import scheduler as vs
+
+    real = (type(threading.Lock()), type(threading.RLock()))
+    saved = []
+    for holder in (sc, su, ctx):
+        for name, val in list(vars(holder).items()):
+            if isinstance(val, real):
+                saved.append((holder, name, val))
+                setattr(holder, name, vs.RLock())
+    for mod in (sc, su):
+        if getattr(mod, "threading", None) is threading:
+            saved.append((mod, "threading", threading))
+            mod.threading = vs.SHIM_THREADING
+    try:
+        yield
+    finally:
+        for holder, name, val in saved:
+            setattr(holder, name, val)
+
+
 def controlled(E, policy_desc, max_steps=600000):
     """Execute the multi-run call on a fresh context under the controlled scheduler."""
     d = E.d
@@ -553,7 +661,7 @@ def controlled(E, policy_desc, max_steps=600000):
     rec = Recording(make_policy(policy_desc))
     S = LineScheduler(rec, max_steps=max_steps, trace_files=TRACE_FILES)
     S.worker_errors = spy_on_workers(ctx)
-    with S.installed():
+    with S.installed(), controlled_locks(ctx):
         res, exc = S.run(lambda: E.multi_call(ctx))
     return ctx, path, res, exc, S, rec
 
@@ -778,8 +886,44 @@ def run_real(d):
 
 
 # ----------------------------------------------------------------------------------------------------
+# ----------------------------------------------------------------------------------------------------
+# recorded findings
+# ----------------------------------------------------------------------------------------------------
+def _shared_context_race(desc, bucket, message):
+    """Several workers resolve plugins on the one shared context and one of them dies of a concurrent-mutation error
+    raised inside strax/context.py."""
+    return (desc.get("workers", 1) >= 2 and not desc.get("opt_kw")
+            and bucket.startswith("clause:parallel.unexpected_exception:") and "raised at strax/context.py:" in message)
+
+
+@signature("F5_multi_target_workers_race_on_registry_and_plugin_cache")
+def _sig_f5(sub, desc, bucket, message):
+    """>=2 same-kind targets: every worker registers the temporary merge plugin in the shared registry and deletes
+    all _temp* entries again, and inserts into the shared plugin cache -> RuntimeError 'dictionary changed size during
+    iteration' (registry / cache iterated meanwhile) or KeyError '... _temp_<hash>' (entry deleted by another worker)."""
+    if not (_shared_context_race(desc, bucket, message) and len(desc.get("targets", ())) >= 2):
+        return False
+    if bucket.endswith(":RuntimeError"):
+        return "dictionary changed size during iteration" in message
+    if bucket.endswith(":KeyError"):
+        return "_temp_" in message
+    return False
+
+
+@signature("F1530_cold_plugin_cache_iterated_while_another_worker_fills_it")
+def _sig_f1530(sub, desc, bucket, message):
+    """One target with dependencies, plugin cache still empty: a worker iterates _fixed_plugin_cache[hash] in
+    __get_requested_plugins_from_cache while another worker inserts the next plugin."""
+    return (_shared_context_race(desc, bucket, message) and len(desc.get("targets", ())) == 1
+            and desc["targets"][0] != "src" and desc.get("warm") == "cold" and bucket.endswith(":RuntimeError")
+            and "dictionary changed size during iteration" in message
+            and "raised at strax/context.py:__get_requested_plugins_from_cache" in message)
+
+
 SUBCHECKS = [
-    SubCheck("single", run_case, strategy=lambda: st_case(multi=False), quick=160, thorough=3200, min_per_shard=5),
-    SubCheck("multi", run_case, strategy=lambda: st_case(multi=True), quick=90, thorough=1800, min_per_shard=5),
+    SubCheck("single", run_case, strategy=lambda: st_case(multi=False), quick=400, thorough=14000, min_per_shard=5),
+    SubCheck("multi", run_case, strategy=lambda: st_case(multi=True), quick=240, thorough=8000, min_per_shard=5),
+    SubCheck("coldrace", run_case, strategy=lambda: st_case(multi=False, racy=True), quick=240, thorough=8000,
+             min_per_shard=5),
     SubCheck("realthreads", run_real, enumerate=enum_real),
 ]
